@@ -3,8 +3,9 @@ CONSTANTS
   MaxLen = 2
   Family = "proto"
   Deep = FALSE
-  Cases <- AllCases
-SPECIFICATION Spec
+  Alpha = "full"
+  Cases <- Tables
+SPECIFICATION MCSpec
 INVARIANT Transparency
 INVARIANT WarnedWhenBroken
 INVARIANT SilentWhenCompliant
